@@ -5,7 +5,9 @@ package env
 
 import (
 	"fmt"
+	"net"
 	"os"
+	"strconv"
 	"strings"
 
 	log "github.com/sirupsen/logrus"
@@ -103,7 +105,7 @@ func (e *Environment) StoreEnvironmentVariablesFromInit(customerEnv map[string]s
 }
 
 func (e *Environment) StoreEnvironmentVariablesFromInitForInitCaching(host string, port int, customerEnv map[string]string, handler, funcName, funcVer, token string) {
-	e.credentials["AWS_CONTAINER_CREDENTIALS_FULL_URI"] = fmt.Sprintf("http://%s:%d/2021-04-23/credentials", host, port)
+	e.credentials["AWS_CONTAINER_CREDENTIALS_FULL_URI"] = fmt.Sprintf("http://%s/2021-04-23/credentials", net.JoinHostPort(host, strconv.Itoa(port)))
 	e.credentials["AWS_CONTAINER_AUTHORIZATION_TOKEN"] = token
 
 	// in this mode the runtime obtains its credentials from the endpoint above only: the customer's
